@@ -227,6 +227,18 @@ def _h_c15(rec):
 for _k in ("train_val_split", "get_batches", "fit_rows"):
     HANDLERS[_k] = _h_c15
 HANDLERS["c05"] = _grid_handler("rt_c05", "C05 scipy.stats comparison")
+def _h_zooB(rec):
+    """contract B (round trips, same point, log-det vs autodiff) on the object zoo, for the property the obligation was checked under"""
+    prop = rec["property"] if rec["property"] in ("C01", "C02") else "C02"
+    fails = rt.rt_zoo_B(prop, first_only=True)
+    if not fails and rec["property"] == "C05":
+        fails = rt.rt_c05("quick", first_only=True)
+    if fails:
+        return True, fails[0]["what"]
+    return False, "contract B (round trips, same point, log-dets vs autodiff) holds on the zoo of real bijections"
+
+
+HANDLERS["zooB"] = _h_zooB
 HANDLERS["c06"] = _grid_handler("rt_c06", "C06 batching")
 HANDLERS["c11"] = _grid_handler("rt_c11", "C11 constructor / raw-parameter sweep")
 def _h_planar(rec):
